@@ -758,11 +758,19 @@ func tightenCenturySplit(sc *Scenario, r *Rng) {
 // refitCenturySplit: a scenario with a tight split whose dates were changed after generation keeps its split at the
 // (new) edge; called when the scenario is written to disk
 func (sc *Scenario) refitCenturySplit() {
-	if sc.TightSplit == 0 {
-		return
-	}
 	cLow, cHigh, ok := sc.centurySplitRange()
 	if !ok {
+		return
+	}
+	if sc.TightSplit == 0 {
+		// an ordinary split must still keep every dated input unambiguous (a groundwater series shifted as a whole may
+		// begin years before the simulation)
+		if sc.DivideCentury > cHigh {
+			sc.DivideCentury = cHigh
+		}
+		if sc.DivideCentury < cLow {
+			sc.DivideCentury = cLow
+		}
 		return
 	}
 	if sc.TightSplit > 0 {
